@@ -34,7 +34,7 @@ Definition slice (s : list Z) (a b : Z) : outcome (list Z) :=
   then Ok (firstn (Z.to_nat (b - a)) (skipn (Z.to_nat a) s))
   else Panic.
 
-(* strings.ReplaceAll for a non-empty old; for old = "" Go inserts new before every rune and at the end *)
+(* strings.ReplaceAll; replace_go is for a non-empty old *)
 Fixpoint replace_go (fuel : nat) (s old new : list Z) : list Z :=
   match fuel with
   | O => s
@@ -49,7 +49,9 @@ Fixpoint replace_go (fuel : nat) (s old new : list Z) : list Z :=
 
 Definition str_replace (s old new : list Z) : option (list Z) :=
   match old with
-  | [] => None          (* rune-wise insertion: not modelled *)
+  | [] => Some (new ++ flat_map (fun st => snd st ++ new) (decode_all s))
+          (* an empty old matches before every character and at the end; characters as utf8.DecodeRune steps
+             through the text: every invalid byte is one of its own *)
   | _ => Some (replace_go (S (length s)) s old new)
   end.
 
